@@ -125,7 +125,7 @@ protected:
 	bool _closed;
 	int _code;
 	Random _random;
-	Mutex _sendMutex; // frames are written whole: receive() answers pings from the receiving thread
+	Shared<Mutex> _sendMutex; // frames are written whole (receive() answers pings from the receiving thread); one lock for all copies of a WebSocket, like the socket they share
 };
 
 /**
